@@ -111,11 +111,15 @@ class CPXPacket(object):
 
 class CPXRouter(threading.Thread):
 
-    def __init__(self, transport):
+    def __init__(self, transport, functions=()):
         threading.Thread.__init__(self)
         self.daemon = True
         self._transport = transport
         self._rxQueues = {}
+        # queues that must exist before the first packet is read: packets
+        # of a function without a queue are dropped
+        for function in functions:
+            self._rxQueues[function.value] = queue.Queue()
         self._packet_assembly = []
         self._connected = True
 
@@ -164,8 +168,8 @@ class CPXRouter(threading.Thread):
 
 
 class CPX:
-    def __init__(self, transport):
-        self._router = CPXRouter(transport)
+    def __init__(self, transport, functions=()):
+        self._router = CPXRouter(transport, functions)
         self._router.start()
 
     def receivePacket(self, function, timeout=None):
